@@ -22,6 +22,9 @@ def key(r):
         return "C02:trailers"
     if "request" in why or "method" in why:
         return "C01:request-on-keepalive"
+    if why.startswith("field "):
+        name = why.split()[1].rstrip(":")
+        return "C02:field:" + name + (":pragma" if name == "cache-control" and up.get("pragma") else "")
     return "C02:fields:" + why[:30]
 
 
